@@ -133,9 +133,35 @@ func c49AllConns() []c49Conn {
 // c49Bytes returns the 4- or 16-byte form of a textual address (parsing is
 // trusted stdlib; everything after it is done on raw bytes here).
 func c49Bytes(s string) []byte {
+	if b, ok := c49BytesCache[s]; ok {
+		return b
+	}
 	a := netip.MustParseAddr(s)
 	return a.AsSlice()
 }
+
+// c49BytesCache / c49NetipCache: the menu addresses parsed once (read-only
+// after init; pure speed-up).
+var c49BytesCache = func() map[string][]byte {
+	m := map[string][]byte{}
+	for _, a := range c49AddrMenu {
+		m[a] = netip.MustParseAddr(a).AsSlice()
+	}
+	for _, p := range c49PrefixMenu {
+		if p.Bits >= 0 {
+			m[p.Addr] = netip.MustParseAddr(p.Addr).AsSlice()
+		}
+	}
+	return m
+}()
+
+var c49NetipCache = func() []netip.Addr {
+	var out []netip.Addr
+	for _, a := range c49AddrMenu {
+		out = append(out, netip.MustParseAddr(a).Unmap())
+	}
+	return out
+}()
 
 // c49Contains: does prefix p (specified) contain address a? Different address
 // families never match.
@@ -217,6 +243,25 @@ func c49Narrow(set []int, score func(i int) (int, bool)) []int {
 // destination-prefix stage is skipped, i.e. every chain passes it with equal
 // specificity.
 func c49Reference(chains []c49Chain, cn c49Conn) int {
+	set := c49ReferenceSet(chains, cn)
+	switch len(set) {
+	case 0:
+		return c49RefNone
+	case 1:
+		return set[0]
+	}
+	return c49RefTie
+}
+
+// c49ReferenceSet returns the chains left after all four stages.
+func c49ReferenceSet(chains []c49Chain, cn c49Conn) []int {
+	_, s4 := c49ReferenceStages(chains, cn)
+	return s4
+}
+
+// c49ReferenceStages returns the chains left after the source-prefix stage
+// and after the final (source port) stage.
+func c49ReferenceStages(chains []c49Chain, cn c49Conn) (afterSrcPrefix, final []int) {
 	local, remote := c49Bytes(c49AddrMenu[cn.Local]), c49Bytes(c49AddrMenu[cn.Remote])
 	port := uint32(c49ConnPortMenu[cn.Port])
 	set := make([]int, len(chains))
@@ -249,6 +294,7 @@ func c49Reference(chains []c49Chain, cn c49Conn) int {
 		return 0, false
 	})
 	set = c49Narrow(set, func(i int) (int, bool) { return prefixScore(c49PrefixMenu[chains[i].Src], remote) })
+	afterSrcPrefix = append([]int(nil), set...)
 	set = c49Narrow(set, func(i int) (int, bool) {
 		ps := c49PortMenu[chains[i].Ports]
 		if len(ps) == 0 {
@@ -261,13 +307,7 @@ func c49Reference(chains []c49Chain, cn c49Conn) int {
 		}
 		return 0, false
 	})
-	switch len(set) {
-	case 0:
-		return c49RefNone
-	case 1:
-		return set[0]
-	}
-	return c49RefTie
+	return afterSrcPrefix, set
 }
 
 // c49SyntacticOverlap: two chains whose match criteria are literally the same
@@ -412,8 +452,8 @@ func c49Lookup(fcm *filterChainManager, cn c49Conn) (route string, errText strin
 	// Same conversion as listenerWrapper.Accept: netip address, unmapped.
 	fc, err := fcm.lookup(lookupParams{
 		isUnspecifiedListener: cn.Wildcard,
-		dstAddr:               netip.MustParseAddr(c49AddrMenu[cn.Local]).Unmap(),
-		srcAddr:               netip.MustParseAddr(c49AddrMenu[cn.Remote]).Unmap(),
+		dstAddr:               c49NetipCache[cn.Local],
+		srcAddr:               c49NetipCache[cn.Remote],
 		srcPort:               c49ConnPortMenu[cn.Port],
 	})
 	if err != nil {
@@ -461,19 +501,44 @@ func c49CheckConfig(e *c49Env, cfg c49Config, ord int64, conns []c49Conn, st *c4
 		chains[i] = c49ChainFromIndex(ci)
 	}
 	st.evals++
+	// fail records a violation. specific=true: the key names the exact
+	// configuration and connection. specific=false is used only for the one
+	// root cause that the unchanged tree exhibits on non-wildcard listeners
+	// (chains that differ in their destination prefix are all kept by the
+	// skipped destination stage): there the key is the class, so that it is
+	// stable across tiers and can be listed as a known finding.
 	fail := func(class string, specific bool, cn *c49Conn, ci int, format string, a ...any) {
 		scope := "config"
 		if cn != nil {
 			scope = c49ScopeOf(*cn)
 		}
-		key := class + "/" + scope
+		if !specific {
+			scope += "/chains-differ-only-in-destination-prefix"
+		}
+		key := scope + "/" + class
 		if specific {
 			key += "/" + cfg.String()
 			if cn != nil {
 				key += "/" + cn.String()
 			}
 		}
-		st.fails = append(st.fails, c49Fail{Class: class + "/" + scope, Key: key, Desc: fmt.Sprintf(format, a...), Cfg: cfg, Conn: cn, order: [2]int64{ord, int64(ci)}})
+		st.fails = append(st.fails, c49Fail{Class: scope + "/" + class, Key: key, Desc: fmt.Sprintf(format, a...), Cfg: cfg, Conn: cn, order: [2]int64{ord, int64(ci)}})
+	}
+	// knownRoot: on a non-wildcard listener, do the chains that are still
+	// equally specific after the source-prefix stage (by the reference) carry
+	// two or more different destination prefixes? That is exactly the
+	// situation in which keeping every destination entry leaves lookup with
+	// several source-prefix entries.
+	knownRoot := func(cn c49Conn) bool {
+		if cn.Wildcard {
+			return false
+		}
+		s3, _ := c49ReferenceStages(chains, cn)
+		d := map[int]bool{}
+		for _, i := range s3 {
+			d[chains[i].Dst] = true
+		}
+		return len(d) >= 2
 	}
 	fcm, accepted, rejErr, pan := e.build(cfg)
 	if pan != nil {
@@ -512,8 +577,16 @@ func c49CheckConfig(e *c49Env, cfg c49Config, ord int64, conns []c49Conn, st *c4
 	for _, w := range []bool{true, false} {
 		if i := tieAt[w]; i >= 0 {
 			cn := conns[i]
-			// wildcard ties are keyed by the exact case; non-wildcard ties by class (see claims: assumption R2)
-			fail("tie-not-rejected", w, &cn, i, "listener %v was ACCEPTED by validation although for connection %v two chains are equally specific after destination prefix, source type, source prefix and source port", cfg, cn)
+			tied := c49ReferenceSet(chains, cn)
+			allDiffer := true
+			for x := range tied {
+				for y := x + 1; y < len(tied); y++ {
+					if chains[tied[x]].Dst == chains[tied[y]].Dst {
+						allDiffer = false
+					}
+				}
+			}
+			fail("tie-not-rejected", w || !allDiffer, &cn, i, "listener %v was ACCEPTED by validation although for connection %v two chains are equally specific after destination prefix, source type, source prefix and source port", cfg, cn)
 		}
 	}
 	chosen := map[string]bool{}
@@ -526,7 +599,7 @@ func c49CheckConfig(e *c49Env, cfg c49Config, ord int64, conns []c49Conn, st *c4
 		}
 		if strings.Contains(errText, "multiple matching filter chains") {
 			st.outcomes["lookup: run-time multiple-matching error ("+c49ScopeOf(cn)+")"]++
-			fail("runtime-multiple-matching", cn.Wildcard, &cn, i, "listener %v (accepted by validation) connection %v: lookup failed at run time with %q; reference result: %s", cfg, cn, errText, c49RefString(refs[i], cfg))
+			fail("runtime-multiple-matching", !knownRoot(cn), &cn, i, "listener %v (accepted by validation) connection %v: lookup failed at run time with %q; reference result: %s", cfg, cn, errText, c49RefString(refs[i], cfg))
 			continue
 		}
 		if refs[i] == c49RefTie {
@@ -593,8 +666,10 @@ func c49RefString(ref int, cfg c49Config) string {
 // ---------------------------------------------------------------- enumeration
 
 // c49ConfigAt maps an ordinal to a configuration: ordinals enumerate, for
-// n = 0..N chains, every ordered n-tuple of chain specifications, each without
-// and with a default chain (n = 0 only with default).
+// n = 0..N chains, every ordered n-tuple of chain specifications; for n = 1, 2
+// each tuple without and with a default chain, for n = 0 and n = 3 only with a
+// default chain (the default chain takes no part in validation or in the four
+// matching stages; the "no default -> error" path is covered by n <= 2).
 func c49ConfigAt(ord int64, maxChains int) (c49Config, bool) {
 	if ord == 0 {
 		return c49Config{Default: true}, true
@@ -603,9 +678,10 @@ func c49ConfigAt(ord int64, maxChains int) (c49Config, bool) {
 	block := int64(1)
 	for n := 1; n <= maxChains; n++ {
 		block *= c49ChainSpecs
-		if ord < 2*block {
-			def := ord%2 == 1
-			x := ord / 2
+		variants := c49DefaultVariants(n)
+		if ord < variants*block {
+			def := variants == 1 || ord%2 == 1
+			x := ord / variants
 			ch := make([]int, n)
 			for k := n - 1; k >= 0; k-- {
 				ch[k] = int(x % c49ChainSpecs)
@@ -613,16 +689,23 @@ func c49ConfigAt(ord int64, maxChains int) (c49Config, bool) {
 			}
 			return c49Config{Chains: ch, Default: def}, true
 		}
-		ord -= 2 * block
+		ord -= variants * block
 	}
 	return c49Config{}, false
+}
+
+func c49DefaultVariants(n int) int64 {
+	if n <= 2 {
+		return 2
+	}
+	return 1
 }
 
 func c49Total(maxChains int) int64 {
 	t, block := int64(1), int64(1)
 	for n := 1; n <= maxChains; n++ {
 		block *= c49ChainSpecs
-		t += 2 * block
+		t += c49DefaultVariants(n) * block
 	}
 	return t
 }
@@ -637,7 +720,7 @@ func TestVerif_C49_FilterChain(t *testing.T) {
 	r := vk.Start(t, "c49_filterchain", "exploration", P)
 	defer r.Finish()
 	maxChains := r.Pick(2, 3)
-	r.Rule(P, fmt.Sprintf("every ordered tuple of 0..%d filter chains (+ optional default chain) whose match is drawn from destination prefix {none,10.0.0.0/8,10.1.0.0/16,10.1.2.3/32,::/0,fd00::/8} x source type {any,same_ip_or_loopback,external} x source prefix (same menu) x source ports {none,[80],[80,81]} is built as a v3 Listener proto (HCM + router filter, RDS route name identifies the chain), decoded by the real LDS decoder (validation) and, if accepted, looked up for every connection local{10.1.2.3,10.9.9.9,fd00::1,127.0.0.1} x remote(same) x remote port{80,81,82} x wildcard listener{t,f} (96); oracle = brute-force most-specific-match over the chain specs; non-trivial = accepted configuration with >=2 chains in which the connection menu selects at least two different chains (or a chain and the default/none)", maxChains))
+	r.Rule(P, fmt.Sprintf("every ordered tuple of 0..%d filter chains (1-2 chains: without and with a default chain; 0 or 3 chains: with a default chain) whose match is drawn from destination prefix {none,10.0.0.0/8,10.1.0.0/16,10.1.2.3/32,::/0,fd00::/8} x source type {any,same_ip_or_loopback,external} x source prefix (same menu) x source ports {none,[80],[80,81]} is built as a v3 Listener proto (HCM + router filter, RDS route name identifies the chain), decoded by the real LDS decoder (validation) and, if accepted, looked up for every connection local{10.1.2.3,10.9.9.9,fd00::1,127.0.0.1} x remote(same) x remote port{80,81,82} x wildcard listener{t,f} (96); oracle = brute-force most-specific-match over the chain specs; non-trivial = accepted configuration with >=2 chains in which the connection menu selects at least two different chains (or a chain and the default/none)", maxChains))
 	r.Assume(P, "R2: on a listener not bound to the wildcard address the destination-prefix stage is skipped (every chain passes with equal specificity), as documented in filterByDestinationPrefixes; the stricter reading (always match the destination prefix) would flag a superset of cases")
 	r.Assume(P, "source type: a connection is same_ip_or_loopback iff remote IP == local IP or remote IP is loopback (127.0.0.0/8, ::1), otherwise external; ANY matches both and is less specific")
 	r.Assume(P, "an unspecified prefix matches every address of either family and is less specific than a /0 prefix; prefixes of the other address family never match")
